@@ -426,6 +426,29 @@ fn check_variant(l: &Ledger, w: &W3, v: &Variant, c: &mut Counts, sample: &mut O
                     }
                 }
             }
+            // account flags: the same two-hop with an oracle account handed over read-only either fails or ends in the very same
+            // state — it must never trade on an adaptive-fee pool without recording the trade in that pool's oracle
+            if v.lim1 == Lim::None && v.lim2 == Lim::None && (v.amount == 1_000_000 || v.amount == 40_000_000) {
+                for (what, ro1, ro2) in [("oracle one read-only", true, false), ("oracle two read-only", false, true), ("both oracles read-only", true, true)] {
+                    let mut ix = hop_ix(neutral);
+                    for m in ix.accounts.iter_mut() {
+                        if (ro1 && m.pubkey == p1.oracle) || (ro2 && m.pubkey == p2.oracle) {
+                            m.is_writable = false;
+                        }
+                    }
+                    let mut alt = l.clone();
+                    let o = svm::process(&mut alt, &ix);
+                    bump(c, "two_hop_read_only_oracle_variants");
+                    if o.ok() {
+                        bump(c, "two_hop_read_only_oracle_accepted");
+                        if alt != post {
+                            return Err(format!("two-hop with {what} succeeded but ends in a different state than with writable oracles: {}", describe_diff(w, &alt, &post)));
+                        }
+                    } else if alt != *l {
+                        return Err(format!("two-hop with {what} failed ({}) but changed the ledger", o.short()));
+                    }
+                }
+            }
             let hop_events = traded_events(&hop);
             if hop_events != events {
                 return Err(format!(
